@@ -404,6 +404,133 @@ def rw_str_plumbing(tl):
     return rw_patterns(tl, STR_RULES)
 
 
+def rw_io(tl):
+    total = 0
+    for _ in range(4):
+        tl, c = _rw_io_once(tl)
+        total += c
+        if c == 0:
+            break
+    return tl, total
+
+
+def _rw_io_once(tl):
+    """R10: I/O statements of execute.rs replaced by calls of trusted helpers:
+       write!(W, "{}", E)  => io_write_display(W, E)
+       W.flush().unwrap()  => io_flush(W)
+       process::exit(N)    => proc_exit(N)
+       io::read_line_from  => io_read_line_from ;  ext::num_to_unicode => ext_num_to_unicode"""
+    out = []
+    i = 0
+    cnt = 0
+    n = len(tl)
+    while i < n:
+        if tl[i] == "write" and i + 2 < n and tl[i + 1] == "!" and tl[i + 2] == "(":
+            j = _close(tl, i + 2)
+            inner = tl[i + 3:j]
+            # split at top-level commas
+            parts, cur, d = [], [], 0
+            for t in inner:
+                if t in ("(", "[", "{"):
+                    d += 1
+                elif t in (")", "]", "}"):
+                    d -= 1
+                if t == "," and d == 0:
+                    parts.append(cur)
+                    cur = []
+                else:
+                    cur.append(t)
+            parts.append(cur)
+            if len(parts) == 3 and parts[1] == ['"{}"']:
+                out += ["io_write_display", "("] + parts[0] + [","] + parts[2] + [")"]
+                i = j + 1
+                cnt += 1
+                continue
+        if tl[i + 1:i + 8] == [".", "flush", "(", ")", ".", "unwrap", "("] and i + 8 < n and tl[i + 8] == ")":
+            out += ["io_flush", "(", tl[i], ")"]
+            i += 9
+            cnt += 1
+            continue
+        if tl[i:i + 3] == ["process", "::", "exit"]:
+            out.append("proc_exit")
+            i += 3
+            cnt += 1
+            continue
+        if tl[i:i + 3] == ["io", "::", "read_line_from"]:
+            out.append("io_read_line_from")
+            i += 3
+            cnt += 1
+            continue
+        if tl[i:i + 3] == ["ext", "::", "num_to_unicode"]:
+            out.append("ext_num_to_unicode")
+            i += 3
+            cnt += 1
+            continue
+        out.append(tl[i])
+        i += 1
+    return out, cnt
+
+
+def rw_chars_rev(tl):
+    """R6b: `for C in S . chars ( ) . rev ( ) { BODY }` =>
+    `let cs_ = chars_of(&S); let mut k_ = cs_.len(); while k_ > 0 { k_ -= 1; let C = cs_[k_]; BODY }`"""
+    out = list(tl)
+    cnt = 0
+    i = 0
+    pat = T(".chars().rev()")
+    while i < len(out):
+        if out[i] == "for" and out[i + 2] == "in" and out[i + 4:i + 4 + len(pat)] == pat and out[i + 4 + len(pat)] == "{":
+            cv, sv = out[i + 1], out[i + 3]
+            b = i + 4 + len(pat)
+            head = T("let cs_ = chars_of(&%s); let mut k_ = cs_.len(); while k_ > 0" % sv)
+            intro = T("k_ -= 1; let %s = cs_[k_];" % cv)
+            out = out[:i] + head + ["{"] + intro + out[b + 1:]
+            cnt += 1
+        i += 1
+    return out, cnt
+
+
+def rw_closure_call(tl, callee, newname, extra_args):
+    """R11: `PATH :: callee ( A , B , | | BODY )` => `newname ( A , B , extra_args )`; returns also BODY tokens."""
+    out = []
+    i = 0
+    cnt = 0
+    body = None
+    n = len(tl)
+    while i < n:
+        # match optional path prefix `x ::` before callee
+        if tl[i] == callee and i + 1 < n and tl[i + 1] == "(":
+            j = _close(tl, i + 1)
+            inner = tl[i + 2:j]
+            # find top-level `| |` closure start
+            d = 0
+            k = None
+            for q, t in enumerate(inner):
+                if t in ("(", "[", "{"):
+                    d += 1
+                elif t in (")", "]", "}"):
+                    d -= 1
+                elif t == "||" and d == 0:
+                    k = q
+                    break
+            if k is not None and inner[k - 1] == ",":
+                args = inner[:k - 1]
+                body = inner[k + 1:]
+                if body and body[0] == "{" and _close(body, 0) == len(body) - 1:
+                    body = body[1:-1]
+                # drop a path prefix already emitted (`area ::`)
+                while len(out) >= 2 and out[-1] == "::":
+                    out.pop()
+                    out.pop()
+                out += [newname, "("] + args + [","] + T(extra_args) + [")"]
+                i = j + 1
+                cnt += 1
+                continue
+        out.append(tl[i])
+        i += 1
+    return out, cnt, body
+
+
 # --- R1: operators on references ------------------------------------------------------------
 
 BINOPS = {"*", "/", "%", "+", "-", "<", ">", "<=", ">=", "==", "!=", "&&", "||", "^", "|", "&", "<<", ">>"}
